@@ -1022,6 +1022,12 @@ func (tr *FnCtx) instr(st *State, in ssa.Instruction, b *ssa.BasicBlock, idx int
 		}
 	case *ssa.Call:
 		tr.vals[x] = tr.call(st, x.Common(), x, "call")
+		if tr.Spec != nil && len(tr.Spec.Steps) > 0 {
+			env := tr.newEnv(st, tr.entry, tr.nameEnv(b, idx))
+			for _, cl := range tr.Spec.Steps {
+				tr.oblige(tr.Short+"/step["+cl.Label+"]", "step", tr.evalClause(env, cl), cl.Src+" (after every call)")
+			}
+		}
 	case *ssa.Go:
 		tr.call(st, x.Common(), x, "go")
 	case *ssa.Defer:
@@ -1034,6 +1040,7 @@ func (tr *FnCtx) instr(st *State, in ssa.Instruction, b *ssa.BasicBlock, idx int
 		for _, r := range x.Results {
 			res = append(res, tr.val(r))
 		}
+		tr.runAts(st, "return", nil)
 		tr.rets = append(tr.rets, retSite{guard: tr.guard, st: st.clone(), res: res, block: b})
 	case *ssa.Panic:
 		tr.safety = append(tr.safety, accessSite{tr.guard, "false", "panic reached in block " + fmt.Sprint(b.Index)})
